@@ -4,11 +4,16 @@ package validating
 
 import (
 	"context"
+	"encoding/json"
 	"math/rand"
 	"strings"
+	"sync"
 	"testing"
 
 	admissionv1 "k8s.io/api/admission/v1"
+	corev1 "k8s.io/api/core/v1"
+	metav1 "k8s.io/apimachinery/pkg/apis/meta/v1"
+	"k8s.io/apimachinery/pkg/runtime"
 	utilerrors "k8s.io/apimachinery/pkg/util/errors"
 	"k8s.io/apimachinery/pkg/util/validation/field"
 	"sigs.k8s.io/controller-runtime/pkg/webhook/admission"
@@ -18,8 +23,41 @@ import (
 	utilfeature "github.com/koordinator-sh/koordinator/pkg/util/feature"
 )
 
+var (
+	vtC13vHandlerOnce sync.Once
+	vtC13vHandlerInst *PodValidatingHandler
+)
+
+// vtC13vRaw is the pod as the API server sends it in an AdmissionReview.
+func vtC13vRaw(pod *corev1.Pod) runtime.RawExtension {
+	p := pod.DeepCopy()
+	p.TypeMeta = metav1.TypeMeta{APIVersion: "v1", Kind: "Pod"}
+	data, err := json.Marshal(p)
+	if err != nil {
+		panic(err)
+	}
+	return runtime.RawExtension{Raw: data}
+}
+
+// vtC13vHandle drives the production entry point (admission.Handler.Handle: decode the raw
+// objects, run the whole chain of pod validators) and returns the verdict the API server sees.
+func vtC13vHandle(op admissionv1.Operation, newPod, oldPod *corev1.Pod) bool {
+	vtC13vHandlerOnce.Do(func() { vtC13vHandlerInst = makeTestHandler() })
+	req := admission.Request{AdmissionRequest: admissionv1.AdmissionRequest{
+		Resource:  metav1.GroupVersionResource{Group: corev1.SchemeGroupVersion.Group, Version: corev1.SchemeGroupVersion.Version, Resource: "pods"},
+		Operation: op, Namespace: newPod.Namespace, Name: newPod.Name,
+		Object: vtC13vRaw(newPod),
+	}}
+	if op == admissionv1.Update {
+		req.OldObject = vtC13vRaw(oldPod)
+	}
+	return vtC13vHandlerInst.Handle(context.TODO(), req).Allowed
+}
+
 // input:  gate op oldpod newpod        (coq/C13/Codec.v dec_validate)
-// observable: [allowed mask]           mask = which rules rejected (coq/C13/Model.v E_*)
+// observable: [allowed mask handle]    mask = which rules rejected (coq/C13/Model.v E_*);
+// handle = verdict of PodValidatingHandler.Handle on the same request (1 allowed, 0 denied;
+// 2 = not driven: the webhook is registered for CREATE and UPDATE only)
 func vtC13vExec(in []int64) []int64 {
 	if len(in) == 0 || in[0] != 101 { // not an input of this stream
 		return []int64{-1}
@@ -59,7 +97,11 @@ func vtC13vExec(in []int64) []int64 {
 			mask |= vtC13RuleOf(fe)
 		}
 	}
-	return []int64{vtB(allowed), mask}
+	handle := int64(2)
+	if op == admissionv1.Create || op == admissionv1.Update {
+		handle = vtB(vtC13vHandle(op, newPod, oldPod))
+	}
+	return []int64{vtB(allowed), mask, handle}
 }
 
 // vtC13RuleOf maps one rejection to the rule that produced it (field path + error type only).
@@ -122,6 +164,48 @@ func vtC13vGen(r *rand.Rand, i int) (string, []int64) {
 	if style == "be" && r.Intn(2) == 0 {
 		prioPresent = true
 		prio = int64(extension.PriorityBatchValueMin) + r.Int63n(int64(extension.PriorityBatchValueMax-extension.PriorityBatchValueMin)+1)
+	}
+	if r.Intn(6) == 0 {
+		// update-delta: the old object is the new one with exactly one protocol field
+		// different (same draws for everything else), or with none
+		if r.Intn(3) == 0 {
+			class = vtC13Pick(r, vtC13ClassValues[:4])
+		}
+		seed := r.Int63()
+		newPod := vtC13GenPod(rand.New(rand.NewSource(seed)), shape, qos, class, prioPresent, prio)
+		q2, c2, pp2, pr2 := qos, class, prioPresent, prio
+		bandMin := map[string]int64{
+			string(extension.PriorityProd): int64(extension.PriorityProdValueMin), string(extension.PriorityMid): int64(extension.PriorityMidValueMin),
+			string(extension.PriorityBatch): int64(extension.PriorityBatchValueMin), string(extension.PriorityFree): int64(extension.PriorityFreeValueMin),
+		}
+		switch r.Intn(9) {
+		case 0: // QoS label changed, added or removed
+			q2 = vtC13Pick(r, append([]string{"-", "-"}, vtC13QoSValues...))
+		case 1: // class label changed, added or removed
+			c2 = vtC13Pick(r, append([]string{"-", "-"}, vtC13ClassValues...))
+		case 2: // spec.priority moved a little: inside the band, or across its edge
+			pr2 = prio + int64(r.Intn(5)) - 2
+		case 3: // spec.priority moved anywhere
+			pr2 = vtC13GenPriority(r)
+		case 4: // spec.priority added or removed
+			pp2 = !prioPresent
+		case 5: // class label dropped in favour of a priority of the same class: no change of class
+			if m, ok := bandMin[class]; ok {
+				c2, pp2, pr2 = "-", true, m+r.Int63n(1000)
+			}
+		case 6: // class label added on top of the priority that already says the same
+			if m, ok := bandMin[class]; ok {
+				pp2, pr2 = true, m+r.Int63n(1000)
+			}
+		case 7: // both labels changed
+			q2 = vtC13Pick(r, vtC13QoSValues)
+			c2 = vtC13Pick(r, vtC13ClassValues)
+		}
+		oldPod := vtC13GenPod(rand.New(rand.NewSource(seed)), shape, q2, c2, pp2, pr2)
+		in := []int64{101, vtB(r.Intn(5) == 0), 1}
+		in = append(in, oldPod...)
+		in = append(in, newPod...)
+		return "update-delta", in
 	}
 	newPod := vtC13GenPod(r, shape, qos, class, prioPresent, prio)
 	op := int64(0)
